@@ -99,6 +99,16 @@ def nested_param_edit(rng, spec):
     return None
 
 
+def twin_copy(D):
+    """A private copy with the same values AND the same memory layout (numpy's summation order
+    depends on the layout, so a deep copy of a frame may differ from the original in the last bit
+    of a layout-sensitive scorer): between an object and its twins only the history differs."""
+    if isinstance(D, pd.DataFrame):
+        a = D.to_numpy()
+        return pd.DataFrame(a.copy(order="K"), index=D.index.copy(), columns=D.columns.copy(), copy=False)
+    return D.copy(order="K")
+
+
 def build_twins(o, ctx):
     """Three twins from the configuration recipe, fitted on the recorded training data."""
     twins = []
@@ -115,7 +125,7 @@ def build_twins(o, ctx):
     ctx.stat("twins_built", len(twins))
     for _, t in twins:
         if o.train is not None:
-            t.fit(o.train.copy(deep=True))
+            t.fit(twin_copy(o.train))
     return twins, None
 
 
@@ -395,7 +405,7 @@ def history(ctx, seed):
                 ctx.case()  # one case = one output event compared with its twins
                 ctx.stat("output_events_compared")
                 for tname, t in twins:
-                    tst, tval = call(t, op, arg.copy(deep=True))
+                    tst, tval = call(t, op, twin_copy(arg))
                     if (st, tst) != ("ok", "ok"):
                         if st != tst or (st == "exc" and val != tval):
                             ctx.violation(sub, f"differs-from-{tname}-twin", f"history {seed} step {step}: "
